@@ -243,22 +243,35 @@ package storage
 //@   loop 0 invariant lst: (forall k :: 0 <= k && k < len(sc.lst) ==> sc.lst[k] != nil) && sameobj(sc.lst, old(sc.lst)) && off(sc.lst) == off(old(sc.lst)) && cap(sc.lst) == cap(old(sc.lst)) && len(sc.lst) <= old(len(sc.lst))
 //
 // queries never see a segment whose whole range lies before now - TTL, even before retention physically removes it
-//@ ghost var retentionDeadline time.Time
+// The clock is external: the instant it returns is recorded in a ghost variable. The deadline is exactly now - TTL
+// (TTL counted in hours or days of nanoseconds): not now - TTL - something, which would keep serving fully expired data.
+//@ ghost var clockNow time.Time
+//@ func clock.Clock.Now
+//@   assumed the clock (external); the instant it returns is recorded in the ghost clockNow
+//@   modifies clockNow
+//@   ensures  result == clockNow
+//@ spec func ruleNanos(u IntervalUnit, n int) int = ite(u == HOUR, 3600000000000 * n, 86400000000000 * n)
+//@ func IntervalRule.estimatedDuration
+//@   mode int
+//@   requires (ir.Unit == HOUR || ir.Unit == DAY) && 0 <= ir.Num && ir.Num <= 100000
+//@   ensures  result == ruleNanos(ir.Unit, ir.Num)
 //@ func segmentController.getRetentionDeadline
-//@   assumed clock.Now() - TTL (clock and TTL arithmetic are external); the value is recorded in a ghost variable
-//@   modifies retentionDeadline
-//@   ensures  result == retentionDeadline
+//@   mode int
+//@   requires sc != nil && sc.opts != nil && (sc.opts.TTL.Unit == HOUR || sc.opts.TTL.Unit == DAY) && 0 <= sc.opts.TTL.Num && sc.opts.TTL.Num <= 100000
+//@   modifies clockNow
+//@   ensures  now-minus-ttl: result == clockNow - ruleNanos(sc.opts.TTL.Unit, sc.opts.TTL.Num)
 //@ func database.SelectSegments
 //@   mode int
 //@   timeout 60
 //@   requires d != nil && d.segmentController != nil && lstOK(d.segmentController)
+//@   requires ttl-is-a-rule: d.segmentController.opts != nil && (d.segmentController.opts.TTL.Unit == HOUR || d.segmentController.opts.TTL.Unit == DAY) && 0 <= d.segmentController.opts.TTL.Num && d.segmentController.opts.TTL.Num <= 100000
 //@   modifies allof(segment.refCount)
 //@   modifies segDirRemoved
 //@   modifies allof(segment.index)
 //@   modifies allof(segment.mustBeDeleted)
-//@   modifies retentionDeadline
+//@   modifies clockNow
 //@   inline GetTimeRange
-//@   ensures  hidden: result1 == nil && !d.disableRetention ==> (forall j :: 0 <= j && j < len(result0) ==> !ite(result0[j].IncludeEnd, result0[j].End < retentionDeadline, result0[j].End <= retentionDeadline)) || len(result0) == 0
+//@   ensures  hidden: result1 == nil && !d.disableRetention ==> (forall j :: 0 <= j && j < len(result0) ==> !ite(result0[j].IncludeEnd, result0[j].End < clockNow - ruleNanos(d.segmentController.opts.TTL.Unit, d.segmentController.opts.TTL.Num), result0[j].End <= clockNow - ruleNanos(d.segmentController.opts.TTL.Unit, d.segmentController.opts.TTL.Num))) || len(result0) == 0
 //@   loop 0 invariant nonnil: forall j :: 0 <= j && j < len(segments) ==> segments[j] != nil
 //@   loop 0 invariant window: len(kept) <= range_i && sameobj(kept, segments) && off(kept) == off(segments) && cap(kept) == cap(segments)
 //@   loop 0 invariant kept-live: forall j :: 0 <= j && j < len(kept) ==> kept[j] != nil && !ite(kept[j].IncludeEnd, kept[j].End < deadline, kept[j].End <= deadline)
@@ -281,9 +294,9 @@ package storage
 //@   pure
 //@   ensures result == gridNext(current) && current < result
 //@ func segmentController.getOptions
-//@   assumed returns the current options under a lock
+//@   assumed returns the current options (sc.opts) under a lock
 //@   pure
-//@   ensures result != nil
+//@   ensures result == sc.opts
 //@ func segmentController.format
 //@   assumed formatting
 //@   pure
